@@ -1,12 +1,19 @@
 use crate::engine::Check;
 
 pub mod c01;
+pub mod c02;
+pub mod c03;
+pub mod c05;
+pub mod model;
 pub mod common;
 
 pub fn build(id: &str, tier: &str) -> Option<Check> {
     let quick = crate::engine::tier_is_quick(tier);
     Some(match id {
         "C01" => c01::build(quick),
+        "C02" => c02::build(quick),
+        "C03" => c03::build(quick),
+        "C05" => c05::build(quick),
         _ => return None,
     })
 }
